@@ -21,7 +21,7 @@ def circuit(rng, n, k):
                 g = ("c", rng.choice(free), g)
         if rng.random() < 0.2:
             g = ("dgr", g)
-        e = g if e is None else ("mul", e, g)
+        e = g if e is None else (rng.choice(["mul", "mul", "mulassign", "append", "pushfront"]), e, g)
     return e
 
 
@@ -48,6 +48,8 @@ def base_history(rng, n):
     for _ in range(rng.randint(2, 5)):
         e = circuit(rng, n, rng.randint(1, 4))
         acts.append(("apply", shift_expr(e, rng.randint(0, max(0, n - 6)))))
+    if rng.random() < 0.5:
+        acts.append(("apply", rng.choice([("id",), ("h", 0), ("mul", ("id",), ("id",)), ("qft", 0)])))   # an empty product
     acts += [("dump",), ("probs",), ("abs",)]
     if rng.random() < 0.7:
         acts += [("measure", rng.randrange(1, 1 << n)), ("dump",)]
